@@ -18,8 +18,10 @@
 //	    evaluator verif/internal/calcgen/denyall.go); if it has, the emitted rules must be the real
 //	    ones (same number of rules, same actions in order), i.e. the deny stand-in was replaced.
 //
-// Validity tags come from the generator and are verified against the real ValidationFilter per
-// case (mismatch => inconclusive, and a HARNESS-ERROR through the floor on judged cases).
+// Validity tags come from the generator and are verified per case against the repo's validators
+// (typha/pkg/validator/v1, libcalico-go/lib/validator/v3 and the two workload-endpoint rules of the
+// filter, restated in calcgen.SelfCheck) — NOT against calc.ValidationFilter, which is under test.
+// A mismatch makes the case inconclusive (and the run a HARNESS-ERROR through the floors).
 //
 // Deliberately not checked:
 //   - what a policy whose Tier resource is missing does (not fixed by the statement);
@@ -168,7 +170,6 @@ func run(c *harness.Case) {
 		}
 		if dA.InSync() {
 			c.Count("flushes_judged_fail_closed", 1)
-			before := len(reported)
 			if key, msg := failClosed(c, sc.U, dA.Delivered(), shA); key != "" && !reported[key] {
 				reported[key] = true
 				w := sc.Witness()
@@ -176,7 +177,6 @@ func run(c *harness.Case) {
 				w["delivered_state_at_flush"] = sc.U.DescribeState(dA.Delivered())
 				c.Violationf(key, w, "after op %d: %s", i, msg)
 			}
-			_ = before
 			for _, p := range shA.State.Profiles {
 				if len(p.InboundRules) == 1 && len(p.OutboundRules) == 1 && p.InboundRules[0].Action == "deny" {
 					sawMissing = true
@@ -218,7 +218,7 @@ func main() {
 		Rule: "generator of C01 in profile-churn mode (endpoints name 1-3 of 5 profiles or an always-absent one; two invalid candidates per profile-rules and workload-endpoint key, one per policy / host endpoint / network set / profile-labels key; key choice biased to profiles and endpoints); " +
 			"non-trivial = the history delivered >=1 invalid value and a deny stand-in profile was in the dataplane at some judged flush; distinct by final state",
 		Assumptions: []string{
-			"validity tags are the generator's; Universe.SelfCheck verifies each against the real calc.ValidationFilter per case",
+			"validity tags are the generator's; Universe.SelfCheck verifies each per case against typha/pkg/validator/v1 and libcalico-go/lib/validator/v3 (trusted) plus the two workload-endpoint rules restated from validation_filter.go",
 			"deny-all is decided by a small reference evaluator of proto.Rule on a fixed probe-packet set (verif/internal/calcgen/denyall.go); unmodelled criteria => that profile is not judged",
 			"shadowdp fold is the observer",
 		},
@@ -226,7 +226,7 @@ func main() {
 			if tier == "thorough" {
 				return 10000
 			}
-			return 400
+			return 320
 		},
 		Run: run,
 		Floors: map[string]int64{"histories": 40, "flushes_compared": 400, "invalid_values_delivered": 300, "missing_profile_judgements": 500,
